@@ -93,7 +93,7 @@ static void v_out(const char *fmt, ...) {
 }
 
 static int v_counter(const char *name) {
-    while (__atomic_exchange_n(&v_sh->lock, 1, __ATOMIC_ACQUIRE)) {
+    while (__sync_lock_test_and_set(&v_sh->lock, 1)) {
     }
     int r = -1;
     for (int i = 0; i < v_ncounters; ++i)
@@ -107,7 +107,7 @@ static int v_counter(const char *name) {
         r = v_ncounters;
         v_ncounters = r + 1;
     }
-    __atomic_store_n(&v_sh->lock, 0, __ATOMIC_RELEASE);
+    __sync_lock_release(&v_sh->lock);
     return r;
 }
 #define V_COUNT(name, n)                                                                                         \
@@ -132,7 +132,7 @@ static void v_crumb(const char *fmt, ...) {
 static const char *v_get_crumb(void) { return v_sh->slot[v_worker].crumb; }
 
 static void v_sample(const char *fmt, ...) {
-    if (__atomic_fetch_add(&v_sh->sample_count, 1, __ATOMIC_SEQ_CST) >= (uint64_t)v_max_samples) return;
+    if (__sync_fetch_and_add(&v_sh->sample_count, 1) >= (uint64_t)v_max_samples) return;
     char buf[1500];
     va_list ap;
     va_start(ap, fmt);
@@ -145,7 +145,7 @@ static void v_sample(const char *fmt, ...) {
  * (harness/oracle-clause/witness-class); replay token = v_crumb unless given. */
 static bool v_sig_admit(const char *sig);
 static void v_viol(const char *sig, const char *fmt, ...) {
-    uint64_t n = __atomic_fetch_add(&v_sh->viol_count, 1, __ATOMIC_SEQ_CST);
+    uint64_t n = __sync_fetch_and_add(&v_sh->viol_count, 1);
     V_COUNT("violations_raw", 1);
     if (n >= 100000 || !v_sig_admit(sig)) return;
     char buf[3000];
@@ -162,13 +162,12 @@ static bool v_sig_admit(const char *sig) {
     for (const char *p = sig; *p; ++p) h = (h ^ (uint8_t)*p) * 0x100000001b3ull;
     if (!h) h = 1;
     for (unsigned i = 0, k = (unsigned)(h & 511); i < 512; ++i, k = (k + 1) & 511) {
-        uint64_t cur = __atomic_load_n(&v_sh->sig_hash[k], __ATOMIC_SEQ_CST);
+        uint64_t cur = v_sh->sig_hash[k];
         if (cur == 0) {
-            uint64_t exp = 0;
-            if (__atomic_compare_exchange_n(&v_sh->sig_hash[k], &exp, h, 0, __ATOMIC_SEQ_CST, __ATOMIC_SEQ_CST)) cur = h;
-            else cur = exp;
+            uint64_t old = __sync_val_compare_and_swap(&v_sh->sig_hash[k], 0, h);
+            cur = old ? old : h;
         }
-        if (cur == h) return __atomic_fetch_add(&v_sh->sig_count[k], 1, __ATOMIC_SEQ_CST) < 3;
+        if (cur == h) return __sync_fetch_and_add(&v_sh->sig_count[k], 1) < 3;
     }
     return false;
 }
@@ -360,7 +359,7 @@ static void v_report_death(const char *prefix, int w, int status, bool hang_conf
         snprintf(sig, sizeof(sig), "%s/signal:%d", prefix, WTERMSIG(status));
     else
         snprintf(sig, sizeof(sig), "%s/exit:%d", prefix, WEXITSTATUS(status));
-    uint64_t n = __atomic_fetch_add(&v_sh->viol_count, 1, __ATOMIC_SEQ_CST);
+    uint64_t n = __sync_fetch_and_add(&v_sh->viol_count, 1);
     v_sh->slot[V_MAX_WORKERS].counters[v_counter("violations_raw")] += 1;
     char key[300];
     snprintf(key, sizeof(key), "%s@%.40s", sig, frames); /* limiter key includes the faulting pc */
